@@ -1,9 +1,9 @@
 // Driver for C20 (results do not depend on goroutine interleaving; shared objects are race-free).
 // Black box: public API of /repo only.
 //
-//   c20 gen <seed> <tier> <cases-out> <obs-out>   generate scenario cases, run each in a FRESH subprocess
-//   c20 run <cases-in> <obs-out>                  re-run given cases (replay, corpus)
-//   c20 one <case fields...>                      run one scenario in this process, print "OBS <id> ..."
+//	c20 gen <seed> <tier> <cases-out> <obs-out>   generate scenario cases, run each in a FRESH subprocess
+//	c20 run <cases-in> <obs-out>                  re-run given cases (replay, corpus)
+//	c20 one <case fields...>                      run one scenario in this process, print "OBS <id> ..."
 //
 // The same source is built twice by checks/c20.py: plainly (result comparison) and with `-race`
 // (race-detector leg: every "WARNING: DATA RACE" written by a scenario process is counted and
@@ -11,8 +11,9 @@
 //
 // Case line:   S <id> <scenario> <goroutines> <iters> <seed>
 // Observation: <id> ok <calls> <diffs> <races> <first-difference or ->      (diffs: concurrent results
-//              that differ from the single-threaded result of the same call; races: race reports)
-//              <id> err <text> | <id> PANIC | <id> HANG
+//
+//	that differ from the single-threaded result of the same call; races: race reports)
+//	<id> err <text> | <id> PANIC | <id> HANG
 //
 // Each row of the access table coq/Conc/AccessTable.v names the scenario that exercises it.
 package main
@@ -74,7 +75,7 @@ func runCase(line, obsPath string) string {
 	var stdout, stderr bytes.Buffer
 	cmd.Stdout = &stdout
 	cmd.Stderr = &stderr
-	cmd.Env = append(os.Environ(), "GORACE=halt_on_error=0 history_size=3")
+	cmd.Env = append(os.Environ(), "GORACE=halt_on_error=0 history_size=3", hx.ChildEnv())
 	done := make(chan error, 1)
 	if err := cmd.Start(); err != nil {
 		return id + " err cannot-start-subprocess"
@@ -82,7 +83,7 @@ func runCase(line, obsPath string) string {
 	go func() { done <- cmd.Wait() }()
 	select {
 	case <-done:
-	case <-time.After(oneDeadline + 30*time.Second):
+	case <-time.After(hx.D(oneDeadline + 30*time.Second)):
 		cmd.Process.Kill()
 		return id + " HANG"
 	}
@@ -197,5 +198,9 @@ func runAll(lines []string, out *hx.Out, obsPath string) {
 		out.Case(l)
 		out.Obs(res[i])
 	}
+	// a scenario that ran out of time (HANG, or one of its own "timed out" errors) is run again alone with 10x deadlines
+	out.RetryIf(func(obs string) bool {
+		return hx.TimedOut(obs) || strings.Contains(obs, "timed_out") || strings.Contains(obs, "timeout") || strings.Contains(obs, "deadline")
+	}, func(l string) string { return runCase(l, obsPath) })
 	out.Close()
 }
